@@ -136,13 +136,36 @@ func cmdVerify(V *Verifier, pats []string, verbose bool) int {
 			continue
 		}
 		nok := 0
+		cov := map[string][]*Oblig{}
+		var real []*Oblig
 		for _, o := range r.Obligs {
+			if o.Kind == "cover" {
+				base := o.Name
+				if i := strings.Index(base, "@"); i >= 0 {
+					base = base[:i]
+				}
+				cov[base] = append(cov[base], o)
+				continue
+			}
+			real = append(real, o)
 			if o.ok() {
 				nok++
 			}
 		}
-		fmt.Printf("%s: paths=%d obligations=%d discharged=%d\n", r.Key, r.Paths, len(r.Obligs), nok)
-		for _, o := range r.Obligs {
+		fmt.Printf("%s: paths=%d obligations=%d discharged=%d\n", r.Key, r.Paths, len(real), nok)
+		for base, os := range cov {
+			all := true
+			for _, o := range os {
+				if o.Status != "unsat" {
+					all = false
+				}
+			}
+			if all {
+				bad++
+				fmt.Printf("   VACUOUS  %s: the antecedent is unreachable on all %d return paths\n", base, len(os))
+			}
+		}
+		for _, o := range real {
 			if !o.ok() || verbose {
 				fmt.Printf("   %-8s %-70s %6.2fs %s\n", o.Status, o.Name, o.Time, o.Detail)
 				if !o.ok() {
@@ -306,10 +329,20 @@ func (V *Verifier) checkProperty(prop string, verbose bool, t0 time.Time) int {
 		}
 	}
 	nReal := 0
+	covers := map[string][]*Oblig{}
 	for _, o := range obligs {
 		solverTime += o.Time
 		if o.Bytes > maxBytes {
 			maxBytes = o.Bytes
+		}
+		if o.Kind == "cover" {
+			// reachability of a postcondition's antecedent: judged per clause over all return paths (below)
+			base := o.Name
+			if i := strings.Index(base, "@"); i >= 0 {
+				base = base[:i]
+			}
+			covers[base] = append(covers[base], o)
+			continue
 		}
 		if o.Vacuity {
 			if !o.ok() {
@@ -328,6 +361,24 @@ func (V *Verifier) checkProperty(prop string, verbose bool, t0 time.Time) int {
 			continue
 		}
 		failed = append(failed, o)
+	}
+	// a postcondition "A ==> B" whose antecedent is unreachable on every return path holds vacuously: broken contract
+	// or broken engine, never a proof
+	nCovered := 0
+	for base, os := range covers {
+		allUnsat := true
+		for _, o := range os {
+			if o.Status != "unsat" {
+				allUnsat = false
+			}
+		}
+		if allUnsat {
+			o := *os[0]
+			o.Name = base + " (antecedent unreachable on all " + fmt.Sprint(len(os)) + " return paths)"
+			failed = append(failed, &o)
+		} else {
+			nCovered++
+		}
 	}
 	var samples []interface{}
 	for i, o := range obligs {
